@@ -605,6 +605,21 @@ def analyse_class(ctx, c):
     ctx.ob('C17.c', construct, a.kind.startswith('tls_'),
            'storage is per thread (thread_local API)', f'{c.module.relpath}:{a.site.lineno}',
            'class-based manager writes non-thread-local state')
+  # what __exit__ consults to restore is recorded at EVERY entry: a manager object can be
+  # entered again (in another scope), and a slot written only on some paths of
+  # __enter__ then still holds what an earlier entry saw
+  read_in_exit = {A.dotted(n) for n in ast.walk(ex.node) if isinstance(n, ast.Attribute) and isinstance(n.ctx, ast.Load)
+                  and (A.dotted(n) or '').startswith('self.') and (A.dotted(n) or '').count('.') == 1}
+  for attr in sorted(read_in_exit):
+    assigns = [k for k in ge.nodes if k.kind == 'stmt' and isinstance(k.ast, (ast.Assign, ast.AnnAssign))
+               and any(A.unparse(t) == attr for t in A.stmt_targets(k.ast))]
+    if not assigns:
+      continue
+    w = ge.can_skip(ge.entry, lambda n: n in assigns)
+    ctx.ob('C17.b', f'{c.fq}#{attr[5:]}:saved-on-every-entry', w is None,
+           f'`{attr}`, which __exit__ consults, is recorded on every path through __enter__ (a re-entered manager '
+           f'does not restore what an earlier entry saw)', f'{c.module.relpath}:{assigns[0].lineno}',
+           f'a path through __enter__ leaves `{attr}` as the previous entry set it: {w}')
 
 
 def rule_d(ctx):
